@@ -151,6 +151,28 @@ func (f *frame) callFunc(fn *ssa.Function, bindings []*Val, args []*Val, res ssa
 			}
 			ls := f.e.Sorts.SeqOf(f.e.Sorts.Str)
 			return &Val{T: f.get(st, f.e.regKey("LOG:"+name, ls), ls), Typ: fn.Signature.Results().At(0).Type()}, nil
+		case "vCbLog", "vCbLogOld", "vCbOK", "vCbOKOld":
+			fv := args[0].T
+			if fv != nil && strings.HasPrefix(fv.Op, "box.") {
+				fv = fv.Args[0]
+			}
+			if fv == nil || fv.Sort != SFn {
+				return nil, unsupported("%s: first argument must be a function-typed parameter", originName(fn))
+			}
+			st := f.st
+			if strings.HasSuffix(originName(fn), "Old") && f.oldSt != nil {
+				st = f.oldSt
+			}
+			if strings.HasPrefix(originName(fn), "vCbOK") {
+				key := f.e.regKey(cbOKKey, f.e.cbOKSort())
+				return &Val{T: Select(f.get(st, key, f.e.cbOKSort()), fv), Typ: types.Typ[types.Bool]}, nil
+			}
+			name, ok := strLitOf(args[1].T)
+			if !ok {
+				return nil, unsupported("vCbLog needs a constant log name")
+			}
+			key := f.e.regKey(cbLogKey(name), f.e.cbLogSort())
+			return &Val{T: Select(f.get(st, key, f.e.cbLogSort()), fv), Typ: fn.Signature.Results().At(0).Type()}, nil
 		case "vCat":
 			if args[0].T == nil || args[1].T == nil {
 				return nil, unsupported("vCat on non-terms")
@@ -408,7 +430,7 @@ func (f *frame) child(fn *ssa.Function, pure bool) *frame {
 	}
 	return &frame{e: f.e, c: f.c, fn: fn, pkg: f.pkg, vals: map[ssa.Value]*Val{}, pure: pure || f.pure, bound: f.bound,
 		st: f.st, reach: f.reach, oldSt: f.oldSt, depth: f.depth + 1, prefix: fmt.Sprintf("%s#%d!", fn.Name(), id), inline: f.inline,
-		triggers: f.triggers, ranges: f.rangesEnv(), bounds: copyBounds(f.bounds), symc: f.symCells()}
+		triggers: f.triggers, ranges: f.rangesEnv(), bounds: copyBounds(f.bounds), symc: f.symCells(), topFC: f.topContract()}
 }
 
 // mergedResult combines the return values of a finished frame.
@@ -578,7 +600,7 @@ func parseModifies(fc *FuncContract) ([]modLoc, error) {
 	all := fc.AllParams()
 	for _, m := range fc.Modifies {
 		m = strings.TrimSpace(m)
-		if strings.HasPrefix(m, "log:") {
+		if strings.HasPrefix(m, "log:") || strings.HasPrefix(m, "cb:") {
 			continue
 		}
 		m = strings.TrimPrefix(m, "*")
@@ -668,6 +690,18 @@ func (e *Engine) modifiesKeys(fc *FuncContract, callee *ssa.Function) ([]string,
 	return out, nil
 }
 
+// modifiedCallbacks lists the function-typed parameters a contract declares it calls (`modifies cb:NAME`).
+func modifiedCallbacks(fc *FuncContract) []string {
+	var out []string
+	for _, m := range fc.Modifies {
+		m = strings.TrimSpace(m)
+		if strings.HasPrefix(m, "cb:") {
+			out = append(out, strings.TrimPrefix(m, "cb:"))
+		}
+	}
+	return out
+}
+
 // modifiedLogs lists the ghost logs a contract declares as modified (`modifies log:NAME`) or appends to.
 func modifiedLogs(fc *FuncContract) []string {
 	var out []string
@@ -752,6 +786,30 @@ func (f *frame) callContract(fc *FuncContract, callee *ssa.Function, args []*Val
 			f.noteRange(r, sig.Results().At(i).Type())
 		}
 	}
+	// function literals passed as callbacks: the contract is applied to a surrogate function value whose
+	// logs start empty; afterwards the literal's effect is lifted from the surrogate's logs (bridge)
+	var bridges []*cbBridge
+	for _, cbn := range modifiedCallbacks(fc) {
+		for i, p := range fc.AllParams() {
+			if p.Name == cbn && i < len(args) && args[i].Clo != nil && args[i].Clo.Fn != nil {
+				sur := f.e.fresh("closure!"+sanitizeIdent(args[i].Clo.Fn.Name()), SFn)
+				bridges = append(bridges, &cbBridge{param: cbn, idx: i, clo: args[i].Clo, sur: sur})
+				na := make([]*Val, len(args))
+				copy(na, args)
+				na[i] = &Val{T: sur, Clo: &Closure{Param: cbn, T: sur}, Typ: args[i].Typ}
+				args = na
+				ls := f.e.Sorts.SeqOf(f.e.Sorts.Str)
+				for _, cb := range fc.Callbacks {
+					if cb.Param == cbn {
+						key := f.e.regKey(cbLogKey(cb.Log), f.e.cbLogSort())
+						f.st.m[key] = Store(f.get(f.st, key, f.e.cbLogSort()), sur, SeqEmpty(ls))
+					}
+				}
+				okKey := f.e.regKey(cbOKKey, f.e.cbOKSort())
+				f.st.m[okKey] = Store(f.get(f.st, okKey, f.e.cbOKSort()), sur, TTrue)
+			}
+		}
+	}
 	pre := f.st.clone()
 	// havoc the modifies set
 	mls, err := parseModifies(fc)
@@ -775,6 +833,36 @@ func (f *frame) callContract(fc *FuncContract, callee *ssa.Function, args []*Val
 			arr := f.get(f.st, k, s)
 			f.st.m[k] = Store(arr, refT, f.e.fresh("havoc!"+sanitize(k), s.Elem))
 		}
+	}
+	for _, cbn := range modifiedCallbacks(fc) {
+		if f.pure {
+			return nil, unsupported("call of %s (which calls back) in a specification", fc.Key)
+		}
+		idx := -1
+		for i, p := range fc.AllParams() {
+			if p.Name == cbn {
+				idx = i
+			}
+		}
+		if idx < 0 || idx >= len(args) {
+			return nil, fmt.Errorf("%s:%d: modifies cb:%s: no such parameter", fc.File, fc.Line, cbn)
+		}
+		fv := args[idx].T
+		if fv == nil || fv.Sort != SFn {
+			if args[idx].Clo != nil && args[idx].Clo.Fn != nil {
+				return nil, unsupported("a function literal is passed as callback %s of %s (inline the callee or give the literal a name)", cbn, fc.Key)
+			}
+			return nil, unsupported("callback argument of %s is not a function value term", fc.Key)
+		}
+		for _, k := range sortedKeys(f.e.keySort) {
+			if strings.HasPrefix(k, "CBLOG:") {
+				arr := f.get(f.st, k, f.e.cbLogSort())
+				f.st.m[k] = Store(arr, fv, f.e.fresh("havoc!cblog", f.e.Sorts.SeqOf(f.e.Sorts.Str)))
+			}
+		}
+		okKey := f.e.regKey(cbOKKey, f.e.cbOKSort())
+		okArr := f.get(f.st, okKey, f.e.cbOKSort())
+		f.st.m[okKey] = Store(okArr, fv, f.e.fresh("havoc!cbok", SBool))
 	}
 	for _, ln := range modifiedLogs(fc) {
 		if f.pure {
@@ -829,7 +917,156 @@ func (f *frame) callContract(fc *FuncContract, callee *ssa.Function, args []*Val
 		}
 		f.assume(t)
 	}
+	for _, b := range bridges {
+		if err := f.liftClosure(fc, b, pos); err != nil {
+			return nil, err
+		}
+	}
 	return resultVal(sig, results), nil
+}
+
+type cbBridge struct {
+	param string
+	idx   int
+	clo   *Closure
+	sur   *Term
+}
+
+// liftClosure derives the effect of the calls the callee made to a function literal from the logs
+// the callee's contract describes for the surrogate function value. Supported shape (identity
+// adapter): the literal makes exactly one call to a callback parameter P of the function under
+// proof, returns that call's result, and every string P's contract logs is one of the literal's own
+// parameters that the callee logs too. Then P's logs grow by the callee's logs and P's ok flag is
+// and-ed with the surrogate's.
+func (f *frame) liftClosure(fc *FuncContract, b *cbBridge, pos token.Pos) error {
+	K := b.clo.Fn
+	// which parameter of the literal does each callee log record?
+	calleeLogParam := map[string]int{}
+	for _, cb := range fc.Callbacks {
+		if cb.Param != b.param {
+			continue
+		}
+		cfn, err := f.e.clauseFunc(fc, cb.Clause)
+		if err != nil {
+			return err
+		}
+		sub := f.child(cfn, true)
+		sub.pkg = f.e.PkgOf[fc]
+		sub.st = newState()
+		sub.reach = TTrue
+		var gen []*Term
+		for i, p := range cfn.Params {
+			ps, err := f.e.Sorts.SortOf(p.Type())
+			if err != nil {
+				return err
+			}
+			g := f.e.fresh("gen", ps)
+			gen = append(gen, g)
+			sub.vals[p] = &Val{T: g, Typ: p.Type()}
+			_ = i
+		}
+		if err := sub.run(); err != nil {
+			return err
+		}
+		r, err := sub.mergedResult()
+		if err != nil {
+			return err
+		}
+		found := -1
+		for i, g := range gen {
+			if r.T != nil && r.T.String() == g.String() {
+				found = i
+			}
+		}
+		if found < 0 {
+			return unsupported("bridge: log %s of callback %s is not one of its parameters", cb.Log, b.param)
+		}
+		calleeLogParam[cb.Log] = found
+	}
+	// run the literal once on generic arguments in a scratch copy of the state
+	if len(K.Params) == 0 {
+		return unsupported("bridge: function literal without parameters")
+	}
+	scratch := f.st.clone()
+	saved := f.st
+	f.st = scratch
+	var gen []*Term
+	var gargs []*Val
+	for _, p := range K.Params {
+		ps, err := f.e.Sorts.SortOf(p.Type())
+		if err != nil {
+			f.st = saved
+			return err
+		}
+		g := f.e.fresh("elem", ps)
+		gen = append(gen, g)
+		gargs = append(gargs, &Val{T: g, Typ: p.Type()})
+	}
+	before := scratch.clone()
+	savedReach := f.reach
+	res, err := f.inlineCall(K, b.clo.Bindings, gargs)
+	after := f.st
+	f.st = saved
+	f.reach = savedReach
+	if err != nil {
+		return fmt.Errorf("bridge: %w", err)
+	}
+	// find the callback parameter P the literal called: the function value whose ok flag changed
+	okKey := f.e.regKey(cbOKKey, f.e.cbOKSort())
+	okAfter := f.get(after, okKey, f.e.cbOKSort())
+	okBefore := f.get(before, okKey, f.e.cbOKSort())
+	if okAfter.Op != "store" || okAfter.Args[0].String() != okBefore.String() {
+		return unsupported("bridge: the function literal must make exactly one call to a callback parameter")
+	}
+	P := okAfter.Args[1]
+	// its result must be what the literal returns: ok' = ok && (r == nil) with r the literal's result
+	if res == nil || res.T == nil {
+		return unsupported("bridge: the function literal must return the callback's result")
+	}
+	wantOK := And(Select(okBefore, P), Eq(res.T, f.e.nilIface()))
+	if okAfter.Args[2].String() != wantOK.String() {
+		return unsupported("bridge: the function literal must return exactly the result of its callback call")
+	}
+	// logs of P: each appended string must be a generic parameter that the callee logs
+	for _, k := range sortedKeys(after.m) {
+		if !strings.HasPrefix(k, "CBLOG:") {
+			continue
+		}
+		a := after.m[k]
+		bb := f.get(before, k, f.e.cbLogSort())
+		if a.String() == bb.String() {
+			continue
+		}
+		if a.Op != "store" || a.Args[0].String() != bb.String() || a.Args[1].String() != P.String() {
+			return unsupported("bridge: unexpected log update by the function literal")
+		}
+		app := a.Args[2] // cat(old, unit(e))
+		if !strings.HasPrefix(app.Op, "cat.") || !strings.HasPrefix(app.Args[1].Op, "unit.") {
+			return unsupported("bridge: unexpected log update by the function literal")
+		}
+		e := app.Args[1].Args[0]
+		pi := -1
+		for i, g := range gen {
+			if e.String() == g.String() {
+				pi = i
+			}
+		}
+		src := ""
+		for ln, q := range calleeLogParam {
+			if q == pi {
+				src = ln
+			}
+		}
+		if pi < 0 || src == "" {
+			return unsupported("bridge: the string logged for the outer callback is not a parameter the callee logs")
+		}
+		srcKey := f.e.regKey(cbLogKey(src), f.e.cbLogSort())
+		cur := f.get(f.st, k, f.e.cbLogSort())
+		f.st.m[k] = Store(cur, P, SeqCat(Select(cur, P), Select(f.get(f.st, srcKey, f.e.cbLogSort()), b.sur)))
+	}
+	okCur := f.get(f.st, okKey, f.e.cbOKSort())
+	f.st.m[okKey] = Store(okCur, P, And(Select(okCur, P), Select(okCur, b.sur)))
+	return nil
 }
 
 // ---- postconditions of the function under proof ----------------------------------------------
@@ -916,8 +1153,78 @@ func (f *frame) checkFrame(params []*Val, pos token.Pos) error {
 
 // ---- callbacks (function-typed parameters) ------------------------------------------------------
 
+func cbLogKey(name string) string { return "CBLOG:" + name }
+
+const cbOKKey = "CBOK"
+
+// cbSorts: logs are arrays Fn -> Seq_Str, the ok flag is an array Fn -> Bool.
+func (e *Engine) cbLogSort() *Sort { return e.Sorts.ArrOf(SFn, e.Sorts.SeqOf(e.Sorts.Str)) }
+func (e *Engine) cbOKSort() *Sort  { return e.Sorts.ArrOf(SFn, SBool) }
+
+// callback models a call of a function-typed parameter: every declared log of the parameter gets
+// the logged string appended, the result is an unconstrained fresh value, and the parameter's ok
+// flag records whether every result so far was a nil error.
 func (f *frame) callback(clo *Closure, args []*Val, sig *types.Signature, pos token.Pos) (*Val, error) {
-	return nil, unsupported("call of callback parameter %s", clo.Param)
+	if f.pure {
+		return nil, unsupported("callback call in a specification")
+	}
+	top := f
+	fc := f.fc
+	if fc == nil && f.topFC != nil {
+		fc = f.topFC
+	}
+	_ = top
+	if fc != nil {
+		for _, cb := range fc.Callbacks {
+			if cb.Param != clo.Param {
+				continue
+			}
+			cfn, err := f.e.clauseFunc(fc, cb.Clause)
+			if err != nil {
+				return nil, err
+			}
+			if len(cfn.Params) != len(args) {
+				return nil, fmt.Errorf("%s:%d: callback %s: declared %d parameters, called with %d", fc.File, cb.Clause.Line, cb.Param, len(cfn.Params), len(args))
+			}
+			sub := f.child(cfn, true)
+			sub.pkg = f.e.PkgOf[fc]
+			sub.st = f.st.clone()
+			sub.reach = TTrue
+			for i, p := range cfn.Params {
+				sub.vals[p] = args[i]
+			}
+			if err := sub.run(); err != nil {
+				return nil, fmt.Errorf("callback log %s: %w", cb.Log, err)
+			}
+			ev, err := sub.mergedResult()
+			if err != nil || ev == nil || ev.T == nil {
+				return nil, unsupported("callback log expression of %s", cb.Param)
+			}
+			key := f.e.regKey(cbLogKey(cb.Log), f.e.cbLogSort())
+			arr := f.get(f.st, key, f.e.cbLogSort())
+			ls := f.e.Sorts.SeqOf(f.e.Sorts.Str)
+			f.st.m[key] = Store(arr, clo.T, SeqCat(Select(arr, clo.T), SeqUnit(ls, ev.T)))
+		}
+	}
+	var results []*Term
+	okAll := TTrue
+	for i := 0; i < sig.Results().Len(); i++ {
+		rt := sig.Results().At(i).Type()
+		s, err := f.e.Sorts.SortOf(rt)
+		if err != nil {
+			return nil, err
+		}
+		r := f.e.fresh(fmt.Sprintf("%scb!%s!r%d", f.prefix, clo.Param, i), s)
+		f.assume(f.e.rangeFact(r, rt))
+		results = append(results, r)
+		if s == SIface && types.Identical(rt, types.Universe.Lookup("error").Type()) {
+			okAll = And(okAll, Eq(r, f.e.nilIface()))
+		}
+	}
+	okKey := f.e.regKey(cbOKKey, f.e.cbOKSort())
+	okArr := f.get(f.st, okKey, f.e.cbOKSort())
+	f.st.m[okKey] = Store(okArr, clo.T, And(Select(okArr, clo.T), okAll))
+	return resultVal(sig, results), nil
 }
 
 // ---- interface method calls -----------------------------------------------------------------------
@@ -1147,4 +1454,11 @@ func (f *frame) modRef(callee *ssa.Function, ml modLoc, arg *Val, st *State) (*T
 		}
 	}
 	return ref, nil
+}
+
+func (f *frame) topContract() *FuncContract {
+	if f.fc != nil {
+		return f.fc
+	}
+	return f.topFC
 }
